@@ -81,9 +81,9 @@ int main(int argc, char **argv) {
         dir = root + QString("/run%1").arg(run); QDir().mkpath(dir);
         bool withSuffix = rnd(4) != 0; base = "app"; suffix = withSuffix ? "log" : ""; QString path = dir + "/" + (withSuffix ? "app.log" : "app");
         int L = (prop == "C09" && rnd(2)) ? 0 : (int)(8 + rnd(40)); if (prop == "C06" && rnd(3) == 0) L = 12;
-        int N = prop == "C06" ? (int)rnd(6) - 1 : (prop == "C05" || prop == "C09" || prop == "C07") ? (rnd(3) ? 0 : 50) : 0;
+        int N = prop == "C06" ? (int)rnd(6) - 1 : (prop == "C05" || prop == "C08" || prop == "C09" || prop == "C07") ? (rnd(3) ? 0 : 50) : 0;
         int opts = 0; if (rnd(3) == 0) opts |= RotatingFileSink::RotationOnStartup; if (prop == "C09" || rnd(3) == 0) opts |= RotatingFileSink::RotationDaily;
-        if (rnd(3) == 0) opts |= RotatingFileSink::Compression;
+        if (rnd(3) == 0 || prop == "C08") opts |= RotatingFileSink::Compression;
         gran_ms = (prop == "C06" && !avoidKnown) ? (rnd(2) ? 1000 : 1) : 1;
         g_now_ms = 1900000000000LL + (long long)rnd(86400) * 1000;
         // foreign look-alike files (C06: never touched)
@@ -102,7 +102,7 @@ int main(int argc, char **argv) {
             // a record: r<seq>; + padding (sometimes multi-byte UTF-8), sizes around the limit
             QString text = QString("r%1;").arg(recs.size());
             int want = L > 0 ? (int)(L - 4 + rnd(8)) : (int)rnd(30); bool utf = rnd(4) == 0;
-            while (text.toUtf8().size() + 1 < want) text += utf ? QString::fromUtf8("\xc3\xa9") : QString("x");
+            while (text.toUtf8().size() + 1 < want) text += utf ? QString::fromUtf8("\xc3\xa9") : (prop == "C08" && rnd(5) == 0) ? QString("\r") : QString("x");
             QMessageLogContext ctx("f.cpp", 1, "fn", "cat");
             LogMessage msg(QtInfoMsg, ctx, text);           // the message's time is the virtual clock NOW
             bool late = (prop == "C09") && !avoidKnown && rnd(5) == 0;     // asynchronous delivery: written after midnight
@@ -121,7 +121,7 @@ int main(int argc, char **argv) {
                 if (!parseRot(n, date, idx, gz)) continue;
                 std::string key = (gz ? n.left(n.size() - 3) : n).toStdString(); present.insert(key);
                 if (!seenContent.count(key)) {
-                    std::string c; if (gz) { bool ok; c = gunzip(QByteArray::fromStdString(readFile(dir + "/" + n)), ok); if (!ok && (prop == "C05")) return fail("C05", "compressed rotated file " + n.toStdString() + " is not a valid gzip stream"); }
+                    std::string c; if (gz) { bool ok; c = gunzip(QByteArray::fromStdString(readFile(dir + "/" + n)), ok); if (!ok && (prop == "C05" || prop == "C08")) return fail(prop.c_str(), "compressed rotated file " + n.toStdString() + " is not a valid gzip stream (header, deflate payload, CRC-32 and length must all check)"); }
                     else c = readFile(dir + "/" + n);
                     if (everSeen.count(key) && (prop == "C09" || prop == "C05")) return fail(prop.c_str(), "rotated name " + key + " was used before and is used again (overwritten / reused)");
                     seenContent[key] = c; appearance.push_back(key); everSeen.insert(key);
@@ -132,7 +132,7 @@ int main(int argc, char **argv) {
             // ---- the statements
             std::string all; for (auto &r2 : recs) all += r2.bytes;
             std::string cat; for (auto &k : appearance) cat += seenContent[k]; cat += activeContent;
-            if (prop == "C05" && N <= 0 && cat != all) return fail("C05", "rotated files in rotation order + active file (" + std::to_string(cat.size()) + " bytes) != records written (" + std::to_string(all.size()) + " bytes)");
+            if ((prop == "C05" || prop == "C08") && N <= 0 && cat != all) return fail(prop.c_str(), "rotated files in rotation order + active file (" + std::to_string(cat.size()) + " bytes) != records written (" + std::to_string(all.size()) + " bytes)");
             if (prop == "C06") {
                 int nfiles = (haveActive ? 1 : 0) + (int)present.size();
                 if (N >= 2 && nfiles > N) return fail("C06", std::to_string(nfiles) + " log files exist after a write, limit N=" + std::to_string(N));
